@@ -225,3 +225,7 @@ func verifCrashed() bool { return false }
 // verifOutcome records a canonical summary of the run's observable outcome (used to
 // validate the interleaving reduction: the set of outcomes must not depend on it).
 func verifOutcome(s string) {}
+
+// verifGuardStruct: like verifGuard for every field of *obj that holds a map or an int
+// (the subscription tables and id counters, whatever they are called).
+func verifGuardStruct(mu *sync.RWMutex, obj any) {}
